@@ -517,3 +517,41 @@ Theorem dataset_blocks_concat_full :
   end.
 Proof. exact F_dataset_blocks_concat. Qed.
 Print Assumptions dataset_blocks_concat_full.
+
+(* ============ source dispatch: string = stream = path, at the level of the characters handed to the tokenizer ============ *)
+(* Model/C13Newlines.v: data= and file= hand the document itself to the tokenizer, path= opens the file in
+   text mode with universal newlines and hands over `universal_newlines doc` (CR LF and lone CR become LF).
+   The tokenizer is the character-level model Model/Tokenizer.v.  Names are qualified: Model/C13Model.v has
+   its own token type. *)
+From DV Require Model.Tokenizer Model.C13Newlines Proofs.C13NewlinesProofs.
+
+(* what IS true: stream = string always; path = string exactly when the document has no carriage return,
+   and then all three sources give the same token sequence (whatever the underscore option) *)
+Theorem sources_deliver_same :
+  forall doc : Tokenizer.str,
+    C13Newlines.delivered C13Newlines.FromFile doc = C13Newlines.delivered C13Newlines.FromData doc
+    /\ (C13Newlines.delivered C13Newlines.FromPath doc = C13Newlines.delivered C13Newlines.FromData doc
+        <-> ~ In 13 doc)
+    /\ (~ In 13 doc ->
+        forall (s1 s2 : C13Newlines.source) (preserve_underscores : bool),
+          Tokenizer.tokenize (Tokenizer.nexus_cfg preserve_underscores) (C13Newlines.delivered s1 doc)
+          = Tokenizer.tokenize (Tokenizer.nexus_cfg preserve_underscores) (C13Newlines.delivered s2 doc)).
+Proof. exact C13NewlinesProofs.sources_deliver_same_l. Qed.
+Print Assumptions sources_deliver_same.
+
+(* the FULL statement "reading from a string, a stream or a path gives identical results"
+     forall doc s1 s2 pu, tokenize (nexus_cfg pu) (delivered s1 doc) = tokenize (nexus_cfg pu) (delivered s2 doc)
+   fails in the form as found (finding source-dispatch:path-universal-newlines): in ('a CR LF b',c,d); LF the
+   second token is the quoted label  a CR LF b  from a string or a stream and  a LF b  from a path *)
+Theorem path_universal_newlines_refuted :
+  exists doc : Tokenizer.str,
+    let toks src := map (fun t => (Tokenizer.t_text t, Tokenizer.t_quoted t))
+                        (fst (Tokenizer.tokenize (Tokenizer.nexus_cfg false) (C13Newlines.delivered src doc))) in
+    In 13 doc
+    /\ nth_error (toks C13Newlines.FromData) 1 = Some ([97; 13; 10; 98], true)
+    /\ nth_error (toks C13Newlines.FromFile) 1 = Some ([97; 13; 10; 98], true)
+    /\ nth_error (toks C13Newlines.FromPath) 1 = Some ([97; 10; 98], true)
+    /\ Tokenizer.tokenize (Tokenizer.nexus_cfg false) (C13Newlines.delivered C13Newlines.FromPath doc)
+       <> Tokenizer.tokenize (Tokenizer.nexus_cfg false) (C13Newlines.delivered C13Newlines.FromData doc).
+Proof. exact C13NewlinesProofs.path_universal_newlines_refuted_l. Qed.
+Print Assumptions path_universal_newlines_refuted.
